@@ -4,6 +4,7 @@ constructors (sizes / module=), reinitialize_parameters, fit, pi_grad / gamma_gr
 plus the property oracles evaluated directly on the implementation."""
 import numpy as np
 
+from . import argforms as af
 from . import storeops as so
 from .common import bits, f2b, unbits  # noqa: F401
 from .qc import DensityMatrix, torch
@@ -39,7 +40,10 @@ RULE = ("case = random history (<= 12 ops quick / <= 30 thorough) of: construct 
         "independently (N(0,1)/sqrt(n) from torch's generator state before the op) but only compared as an AUXILIARY point (how the random stream is consumed "
         "is not part of the property); the property-level weight oracles are effect oracles (fresh storage, not all-zero unless zero_weights was passed "
         "to THIS call, different from the previous values and from the other network's); identities (data_ptr classes), shapes, tokens, refusal (not the exception type) compared exactly with the model "
-        "after every op; plus gradient-row and optimizer-rule cases. non-trivial iff the history contains a module-built or reinitialised "
+        "after every op; plus gradient-row and optimizer-rule cases. ARGUMENT FORMS (seed `af` of every op with options, `aseed` of a gradient case): "
+        "num_visible / num_hidden / num_aux (incl. 0), epochs / pos_batch_size / k of fit, eta of gamma_grad as Python int / numpy.int64 / int32 / intp / "
+        "uint8 / 0-d numpy array / 0-d torch tensor; gpu, zero_weights (constructor and initialize_parameters), phase, expand as bool / int / numpy.bool_ / "
+        "numpy comparison result / 0-d numpy array / 0-d torch tensor; by keyword or positionally. non-trivial iff the history contains a module-built or reinitialised "
         "two-network state that is subsequently written or trained; distinct by hash of the plan")
 
 
@@ -154,7 +158,7 @@ def gen_plan(rng, maxlen):
         else:
             s = rng.randrange(3)
             plan.append({"t": "autoload", "slot": s, "kind": kind, "path": rng.randrange(2)})
-    return plan[: maxlen + 2]
+    return so.add_forms(plan[: maxlen + 2], rng)
 
 
 def ptrs(net):
@@ -435,7 +439,8 @@ def grad_case(ctx, case):
     gen = torch.Generator()
     gen.manual_seed(tseed)
     torch.manual_seed(tseed)
-    st = DensityMatrix(nv, nh, na, gpu=False)
+    fm = af.Forms(case.get("aseed"), ctx, "grad ")   # sizes, gpu, phase, expand, eta as the objects a caller passes
+    st = DensityMatrix(fm.i("num_visible", nv), fm.i("num_hidden", nh), fm.i("num_aux", na), gpu=fm.gpu())
     with torch.no_grad():
         for net in (st.rbm_am, st.rbm_ph):
             for k, p in net.named_parameters():
@@ -445,10 +450,12 @@ def grad_case(ctx, case):
     v = torch.randint(0, 2, (B, nv), generator=gen).to(torch.double)
     vp = torch.randint(0, 2, (B, nv), generator=gen).to(torch.double)
     A = st.rbm_ph.num_aux
+    T1, T2, F1 = fm.f("phase", True), fm.f("phase", True), fm.f("expand", False)
+    E1, E2, eta = fm.f("expand", True), fm.f("expand", True), fm.i("eta", -1)
     blocks = {
-        "pi_grad(phase=True, expand=True)": st.pi_grad(v, vp, phase=True, expand=True)[..., -A:] if A else torch.zeros(0),
-        "pi_grad(phase=True, expand=False)": st.pi_grad(v, vp, phase=True, expand=False)[..., -A:] if A else torch.zeros(0),
-        "rbm_ph.gamma_grad(eta=-1, expand=True)": st.rbm_ph.gamma_grad(v, vp, eta=-1, expand=True)[..., -A:] if A else torch.zeros(0),
+        "pi_grad(phase=True, expand=True)": (st.pi_grad(v, vp, T1, E1) if fm.pos("pi_grad(v, vp, phase, expand)") else st.pi_grad(v, vp, phase=T1, expand=E1))[..., -A:] if A else torch.zeros(0),
+        "pi_grad(phase=True, expand=False)": st.pi_grad(v, vp, phase=T2, expand=F1)[..., -A:] if A else torch.zeros(0),
+        "rbm_ph.gamma_grad(eta=-1, expand=True)": (st.rbm_ph.gamma_grad(v, vp, eta, E2) if fm.pos("gamma_grad(v, vp, eta, expand)") else st.rbm_ph.gamma_grad(v, vp, eta=eta, expand=E2))[..., -A:] if A else torch.zeros(0),
         "ph_grads": st.ph_grads(v)[..., -A:] if A else torch.zeros(0),
     }
     letters = np.array(list("XYZ"))
@@ -618,10 +625,19 @@ def wrong_module_probe(ctx):
 def gen_grad(rng):
     nv = rng.choice([1, 2, 3])
     return {"type": "grad", "nv": nv, "nh": rng.choice([1, 2, 4]), "na": rng.choice([1, 2, 3]), "nonzero_d": rng.random() < 0.3,
-            "tseed": rng.randrange(1, 2 ** 31)}
+            "tseed": rng.randrange(1, 2 ** 31), "aseed": af.new_seed(rng)}
 
 
 def fixed_cases():
+    """the hand-written histories (`_fixed_cases`), each with argument forms from a stream seeded by its tseed"""
+    import random
+
+    for case in _fixed_cases():
+        so.add_forms(case["plan"], random.Random(case["tseed"]))
+        yield case
+
+
+def _fixed_cases():
     c = lambda **k: k  # noqa: E731
     yield {"type": "history", "tseed": 201, "plan": [
         c(t="mkModule", mslot=0, k="binary", nv=2, nh=3, na=None), c(t="writeModule", mslot=0),
